@@ -81,6 +81,14 @@ def run(pid, tier, seed):
             "absolute path to the target - " + driver.lean_status("L10_resolver_roundtrip.lean") + ". That str.split/join with a "
             "separator not occurring in any name are inverse, and Walker.walk's contract (C15) yields exactly such an up/down pair, "
             "links the lemma to the code by review; the bounded stand-in runs the round trips on the real code"}]
+    if pid == "C08":
+        lem[-1] = {"id": "L12", "statement": "agreement of glob with get on wildcard-free components over sibling-unique names: the relaxed "
+                   "denotation GL is [get's node] or [] and strict glob returns the singleton of get's node or fails with get's error "
+                   "(same kind, same node, same component)",
+                   "status": "on the abstraction (the recursive denotation GL that __glob/__find are proved to compute, and the fold that get "
+                   "is proved to compute): " + driver.lean_status("L12_glob_get_agreement.lean") + ". Literal matching = name equality is "
+                   "the assumed `re` contract for patterns without wildcard characters; the bounded stand-in compares strict glob with get "
+                   "on the real code"}
     res = common.standard(pid, tier, seed, collect(pid), TRUSTED, "resolver.py", {"property": pid, "nodes": 3, "comps": 2}, None, "",
                           lemmas=lem, select=False, extra_quick=bounded_part(pid, tier))
     # the thorough-tier generic bounded run of common.standard is replaced by bounded_part above
